@@ -8,7 +8,8 @@
 (* bionumpy/io/indexed_fasta.py:132-206.                                                     *)
 EXTENDS Integers, Sequences, FiniteSets, TLC
 
-CONSTANTS MaxRecs, MaxL, MaxW, FinalNL
+CONSTANTS MaxRecs, MaxL, MaxW, FinalNL,
+          BlankEnd      \* an empty line after the last record (a file that ends in two newlines)
 
 Rep(x, n) == [i \in 1..n |-> x]
 RECURSIVE SeqLines(_, _, _, _)
@@ -18,7 +19,7 @@ SeqLines(r, L, W, p) == IF p >= L THEN <<>>
 RecordBytes(r, rec) == <<<<"gt">>>> \o Rep(<<"h", r>>, rec.hdr) \o <<<<"nl">>>> \o SeqLines(r, rec.L, rec.W, 0)
 RECURSIVE FileBytes(_, _)
 FileBytes(recs, r) == IF r > Len(recs) THEN <<>> ELSE RecordBytes(r, recs[r]) \o FileBytes(recs, r + 1)
-File(recs) == LET f == FileBytes(recs, 1) IN IF FinalNL THEN f ELSE SubSeq(f, 1, Len(f) - 1)
+File(recs) == LET f == FileBytes(recs, 1) IN IF FinalNL THEN (IF BlankEnd THEN f \o <<<<"nl">>>> ELSE f) ELSE SubSeq(f, 1, Len(f) - 1)
 
 \* ---- L0: the index and the substring
 OffsetOf(recs, r) == CHOOSE o \in 0..Len(File(recs)) : File(recs)[o + 1] = <<"b", r, 0>>
